@@ -532,9 +532,9 @@ def diag(a) -> 'Tensor':
         #     isdiag=True -> isdiag=False                    isdiag=False -> isdiag=True
     Dp = tuple(x.Dp ** 2 for x in a.slices) if a.isdiag else tuple(D[0] for D in a.struct.D)
     #
-    news = a.struct.s
+    news, newhfs = a.struct.s, a.hfs
     if a.trans == (1, 0):  # sufficient for the transpose, to have consistent signature flow
-        news == news[::-1]
+        news, newhfs = news[::-1], newhfs[::-1]
     #
     slices = tuple(_slc(((stop - dp, stop),), ds, dp) for stop, dp, ds in zip(accumulate(Dp), Dp, a.struct.D))
     struct = a.struct._replace(diag=not a.isdiag, size=sum(Dp), s=news)
@@ -545,7 +545,7 @@ def diag(a) -> 'Tensor':
     else:  # isdiag=False -> isdiag=True
         meta = tuple((x.slcs[0], y.slcs[0], y.D) for x, y in zip(slices, a.slices))
         data = a.config.backend.diag_2dto1d(a._data, meta, struct.size)
-    return a._replace(struct=struct, slices=slices, data=data, trans=None)
+    return a._replace(struct=struct, slices=slices, data=data, hfs=newhfs, trans=None)
 
 
 def remove_zero_blocks(a, rtol=1e-12, atol=0) -> 'Tensor':
